@@ -107,6 +107,9 @@ let validate (name : string) (nprod : int) (events : (int * string) list) : stri
             | c -> fail ln ("decode started while the model's consumer is in " ^ cstr c))
          | "D", "-" ->                                     (* harness: the packet callback saw payload `ptr`, intact = a *)
            incr ndec;
+           (match !s.q_cons with
+            | CDone _ -> ()
+            | c -> fail ln ("the packet callback read the buffer while the model's consumer is in " ^ cstr c ^ " (the buffer is no longer the decoder's)"));
            (match List.rev !s.g_decoded with
             | (_, x) :: _ ->
               if int_of_z x <> ptr then fail ln (Printf.sprintf "the decoder saw payload %d, the model says %d (order / exactly-once / intact)" ptr (int_of_z x));
